@@ -114,6 +114,7 @@ func (v *VMap) validate(prefix string, tv reflect.Value) *VMap {
 				case Either, BothEq:
 					v.vc.initValid2FieldsMap(&name2Value{
 						validName:  validName,
+						groupName:  prefix,
 						fieldName:  key,
 						cusMsg:     cusMsg,
 						reflectVal: val,
